@@ -20,8 +20,8 @@ func init() {
 			"for storage overlap by address range, then every single mutation (payload bytes, each CSRC entry, each extension value in place, SetExtension " +
 			"replace/add, DelExtension, in-capacity appends) is applied to one side while the other side's snapshot (fields + Marshal bytes) is watched, in both " +
 			"directions; non-trivial = at least one slice is populated; distinct = packet shape keys",
-		Floor:     300,
-		Technique: "runtime monitor: twin (mutate one side, watch the other) + address-range overlap monitor on Clone results",
+		Floor:       300,
+		Technique:   "runtime monitor: twin (mutate one side, watch the other) + address-range overlap monitor on Clone results",
 		Assumptions: []string{"extension values are reached through GetExtension (the only public way)"},
 		Strata: []fw.Stratum{
 			{Name: "packet-clone", N: fw.Const(20000, 2000000), Run: c20Packet},
